@@ -608,6 +608,69 @@ func runC17(c *Ctx) {
 			}
 		}
 	}
+	// one target filled again and again: what it holds after each call is the current value only
+	// (annotation wrappers and scalars; structs and maps may legitimately keep fields a later value lacks)
+	reuse := []struct {
+		stream string
+		target reflect.Type
+	}{
+		{"a::1 2 b::c::3 4 d::5 6", reflect.TypeOf(wrapInt{})},
+		{"a::1 2 b::c::\"s\" [1] x::null 4", reflect.TypeOf(wrapAny{})},
+		{"a::\"x\" \"y\" b::c::\"z\" \"w\"", reflect.TypeOf(wrapStr{})},
+		{"[a::1, 2, b::3] [4, 5] [c::6]", reflect.TypeOf([]wrapInt(nil))},
+		{"{w:a::1} {w:2} {w:b::3,w:4}", reflect.TypeOf(struct {
+			W wrapInt `ion:"w"`
+		}{})},
+		{"1 2 3", reflect.TypeOf(int(0))}, {"\"a\" \"\" \"b\"", reflect.TypeOf("")}, {"[1,2,3] [4] [] [5,6]", reflect.TypeOf([]int(nil))},
+		{"{{AQID}} {{}} {{BA==}}", reflect.TypeOf([]byte(nil))}, {"1 null 2", reflect.TypeOf(new(int))},
+	}
+	for _, ru := range reuse {
+		for _, bin := range []bool{false, true} {
+			c.Eval(1)
+			c.NonTrivial(fmt.Sprintf("reuse|%s|%v|%v", ru.stream, ru.target, bin))
+			verdict := func() (verdict string) {
+				defer func() {
+					if rec := recover(); rec != nil {
+						verdict = "panic: " + ionx.PanicSite(rec)
+					}
+				}()
+				vals, err := reftext.Parse(ru.stream, nil)
+				if err != nil {
+					return ""
+				}
+				data := []byte(ru.stream)
+				if bin {
+					enc, err := refbin.Encode(vals, nil)
+					if err != nil {
+						return ""
+					}
+					data = enc.Bytes
+				}
+				d := ion.NewDecoder(ion.NewReader(bytes.NewReader(data)))
+				target := reflect.New(ru.target)
+				for i := range vals {
+					if err := d.DecodeTo(target.Interface()); err != nil {
+						return fmt.Sprintf("value %d: %v", i, err)
+					}
+					fresh := reflect.New(ru.target)
+					one, err := reftext.Print(vals[i:i+1], nil)
+					if err != nil {
+						return ""
+					}
+					if err := ion.Unmarshal([]byte(one), fresh.Interface()); err != nil {
+						return ""
+					}
+					if df := equalGo(fresh.Elem(), target.Elem(), "target", true); df != "" {
+						return fmt.Sprintf("after value %d (%s) the re-used target differs from a fresh one: %s", i, model.Fmt(vals[i]), df)
+					}
+				}
+				return ""
+			}()
+			if verdict != "" {
+				c.Violate("reused-target", ru.target.String()+":"+Class(verdict), fmt.Sprintf("stream %q binary=%v target=%v :: %s", ru.stream, bin, ru.target, verdict), UnCase{Text: ru.stream, Binary: bin, Via: "reused-target", Target: ru.target.String()}, nil)
+			}
+		}
+	}
 	// structured targets: a random Go value's Ion image, spelled by the reference producers (fields
 	// in another order, any legal spelling/encoding), unmarshalled into a fresh value of that type
 	ng := c.N(2500, 80000)
